@@ -362,7 +362,10 @@ def k4(rep, w):
     sp = w.require_fn(P + 'super_', 'C07')
     FK = 'yarel::compiler::FunctionKind'
     variants = [v['n'] for v in w.yarel.adts[FK]['variants']]
-    clos = [g for g in w.fns.values() if g.kind == 'Closure' and g.parent == sp.path]
+    # the closures made in super_'s body (a helper shared with `self` / `Self` is spliced into each of its callers by the fact loader,
+    # its closure keeps one parent only: go by the closure values that occur in the body)
+    made = {(s_.get('r') or {}).get('closure') for b in sp.blocks for s_ in b['s'] if (s_.get('r') or {}).get('closure')}
+    clos = [g for g in w.fns.values() if g.kind == 'Closure' and (g.parent == sp.path or g.path in made)]
     preds = []
     for g in clos:
         reads_kind = any(isinstance(e, dict) and e.get('n') == 'kind' for b in g.blocks for s_ in b['s'] for e in (((s_.get('r') or {}).get('p') or {}).get('p') or []))
